@@ -37,7 +37,7 @@ def gen_case(seed, i, engine, mask, skipped=None):
     # a second, complete pass: convergence after a failed/interrupted one
     lines.append("compact %d" % R)
     lines += ["echo after2"] + probe_reads(keys, [sh.dealt, 0])
-    return core.Case("backend", lines, {"engine": engine, "R": R, "skipped": skipped or []}, compare=lambda op: op != "dellog")
+    return core.Case("backend", lines, {"engine": engine, "R": R, "skipped": skipped or []})
 
 
 def oracle(case):
